@@ -29,6 +29,7 @@ func c06Spaces(tier string) []pairLeg {
 		add("mixed", Mixed())
 		add("large", Large())
 		add("huge", Huge())
+		add("obj-in-list", ObjInList())
 		add("E3", EditStates(3, 4000))
 	} else {
 		add("A6x123", Arr(6, "123"))
@@ -44,6 +45,7 @@ func c06Spaces(tier string) []pairLeg {
 		add("mixed", Mixed())
 		add("large", Large())
 		add("huge", Huge())
+		add("obj-in-list", ObjInList())
 		add("E2", EditStates(2, 800))
 	}
 	return legs
@@ -71,6 +73,10 @@ func init() {
 			// an option that changes nothing for these documents (integers, precision 0.001) must not change the diff
 			pairs(e, "c06prec", "A5x123/PRECISION:0.001", Arr(5, "123"), Arr(5, "123"))
 			pairs(e, "c06prec", "A2cont/PRECISION:0.001", Arr(2, "cont"), Arr(2, "cont"))
+			// numbers within the precision at the same place, next to real edits: the context lines of the hunks are
+			// still the neighbouring elements of a, and the hunks still turn a into b (up to the precision)
+			near := NearNumberArrays()
+			pairs(e, "c06eps", "near/PRECISION:0.1", near, near)
 			for _, l := range c06Spaces(tier) {
 				pairs(e, "c06", l.Name, l.A, l.B)
 			}
@@ -308,6 +314,9 @@ func runC06(c *engine.Case) engine.Result {
 		if c.Kind == "c06prec" {
 			d = na.Diff(nb, jd.Precision(0.001))
 		}
+		if c.Kind == "c06eps" {
+			d = na.Diff(nb, jd.Precision(0.1))
+		}
 		res.Transitions++
 		text = d.Render()
 		hs, err := impl.Hunks(d)
@@ -335,6 +344,13 @@ func runC06(c *engine.Case) engine.Result {
 				fail = "diff contains a hunk outside the documented format: " + rej.Error()
 			} else {
 				fail = "context/remove expectations of the diff do not hold on a when replayed by the reference interpreter: " + rej.Error()
+			}
+			return
+		}
+		if c.Kind == "c06eps" {
+			// (minimality is defined on exact equality; here only context and effect are judged)
+			if !ref.EqualEps(got.ToV(), bV, 0.1) {
+				fail = "replaying the hunks on a gives " + ref.JSON(got.ToV()) + ", which is not b within the precision"
 			}
 			return
 		}
